@@ -68,7 +68,8 @@ type variant struct {
 func variants(thorough bool) []variant {
 	// the second quick variant differs from the first only in what "a different chain id" looks like: ids are compared
 	// as exact strings, so an id that differs in case only is a different chain
-	v := []variant{{100, -11 * time.Second, 5, "c", "other", false}, {100, -11 * time.Second, 5, "mocha-4", "Mocha-4", true}}
+	v := []variant{{100, -11 * time.Second, 5, "c", "other", false}, {100, -11 * time.Second, 5, "mocha-4", "Mocha-4", true},
+		{100, -11 * time.Second, 5, "c", "", false}} // (an untrusted header that names no chain at all)
 	if thorough {
 		v = append(v,
 			variant{1, -time.Nanosecond, 2, "c", "C", false},
